@@ -159,10 +159,14 @@ def numerals(ctx, nfields):
     ctx.prove(tt == {34816: "/dev/pts/0", 34817: "/dev/pts/1", 1025: "/dev/tty1"}.get(tty), "terminal", detail=f"{tty} -> {tt}")
 
 
-@harness("C06.threads", quick=[dict(L=L, nthreads=2, witness=None) for L in (0, 1, 2, 4)] + [dict(L=0, nthreads=2, witness=i) for i in range(len(WITNESS_NAMES))],
-         thorough=[dict(L=L, nthreads=3, witness=None) for L in range(16)] + [dict(L=0, nthreads=3, witness=i) for i in range(len(WITNESS_NAMES))])
-def threads(ctx, L, nthreads, witness):
-    """threads(): (tid, utime/CLK, stime/CLK) in tid order, whatever the thread names contain"""
+@harness("C06.threads", quick=[dict(L=L, nthreads=2, witness=None) for L in (0, 1, 2, 4)] + [dict(L=0, nthreads=2, witness=i) for i in range(len(WITNESS_NAMES))]
+         + [dict(L=1, nthreads=3, witness=None, gone=g) for g in ("open-ENOENT", "open-ESRCH", "read-ESRCH")],
+         thorough=[dict(L=L, nthreads=3, witness=None) for L in range(16)] + [dict(L=0, nthreads=3, witness=i) for i in range(len(WITNESS_NAMES))]
+         + [dict(L=L, nthreads=n, witness=None, gone=g) for g in ("open-ENOENT", "open-ESRCH", "read-ESRCH") for L in (0, 2) for n in (2, 3, 4)])
+def threads(ctx, L, nthreads, witness, gone=None):
+    """threads(): (tid, utime/CLK, stime/CLK) in tid order, whatever the thread names contain.
+    gone: one thread other than the main one (which one is symbolic) exits while the task list is being read -- its stat file
+    cannot be opened any more, or opens and then fails to read with ESRCH; the other threads are still reported exactly"""
     k = simk.Kernel(ctx)
     simk.system_files(k)
     simk.full_process(k, 77)
@@ -173,10 +177,19 @@ def threads(ctx, L, nthreads, witness):
     for j, t in enumerate(tids):
         name = b"main" if j == 0 else (tn if j == 1 else b"w) k (r")
         k.files[f"/proc/77/task/{t}/stat"] = simk.stat_record(k, t, name, b"S", {4: 1, 14: ticks[t][0], 15: ticks[t][1], 16: 9, 17: 9})
+    if gone:
+        import errno as _errno
+
+        victim = ctx.choice("exited_thread", tids[1:])
+        path = f"/proc/77/task/{victim}/stat"
+        k.files[path] = simk.fails_on_read(k, path) if gone == "read-ESRCH" else simk.oserr(_errno.ENOENT if gone == "open-ENOENT" else _errno.ESRCH, path)
     with k.installed():
-        th = ctx.guard("named-thread-times", psutil.Process(77).threads)
+        th = ctx.guard("thread-exit-tolerated" if gone else "named-thread-times", psutil.Process(77).threads)
     ctx.observe("threads", [tuple(x) for x in th])
-    ctx.prove(len(th) == nthreads and [x.id for x in th] == tids, "threads-in-tid-order")
+    if gone:
+        tids = [t for t in tids if t != victim]
+        nthreads -= 1
+    ctx.prove(len(th) == nthreads and [x.id for x in th] == tids, "thread-exit-tolerated" if gone else "threads-in-tid-order", detail=f"{[x.id for x in th]} vs {tids}")
     if len(th) != nthreads:
         return
     ctx.prove(ctx.all([ctx.eq(th[0].user_time, ctx.div(ticks[77][0], CLK)), ctx.eq(th[0].system_time, ctx.div(ticks[77][1], CLK))]), "main-thread")
